@@ -68,6 +68,13 @@ pub fn generate(rng: &mut Rng, thorough: bool) -> Vec<String> {
         let offz = *rng.pick(&[0i128, 60, -60, 330, 345, -210, 840, -720, 1, -1, 1439, -1439]);
         v.push(format!("f_zdt {ins} {offz} {} {} {p} {su} {mo} {cal} {sh}", rng.pick(&["auto", "never"]), rng.pick(&["auto", "never", "critical"])));
         v.push(format!("rt_zdt {ins} {offz} {cal}"));
+        // zones whose offset is not a whole number of minutes (served by the synthetic provider): the displayed
+        // offset is the rounded one, ties away from zero; the text must still parse back to the same instant
+        let secs = *rng.pick(&[-2670i128, 2670, -30, 30, -90, 90, -1172, 1172, 45, -45, 20, -20, 19830, -16230, 1, -1, 59, -59, 3600, -3630, 50430, -43170]);
+        let zs = if rng.chance(1, 3) { format!("z:{secs};{},{}", rng.range(-1_000_000_000, 2_000_000_000), rng.pick(&[-2670i128, 2670, -30, 30, 3630, -3630, 0])) } else { format!("z:{secs}") };
+        let ins_s = rng.range(-4_000_000_000, 4_000_000_000) * 1_000_000_000 + ms * 1_000_000 + us * 1000 + ns;
+        v.push(format!("f_zdts {ins_s} {zs} {} {} {p} {su} {mo}", rng.pick(&["auto", "never"]), rng.pick(&["auto", "never", "critical"])));
+        v.push(format!("rt_zdts {ins_s} {zs}"));
         // durations: both signs, zero fields, sub-second folding, carries
         let sg = if rng.chance(1, 2) { 1 } else { -1 };
         let mut f = [0i128; 10];
@@ -186,6 +193,20 @@ pub fn eval(t: &[&str]) -> Option<String> {
             let tz = TimeZone::try_from_str(&format!("{}{:02}:{:02}", if m < 0 { '-' } else { '+' }, m.abs() / 60, m.abs() % 60)).ok()?;
             out(ZonedDateTime::try_new(i(t[1]), Calendar::from_str(t[8]).ok()?, tz).and_then(|z| {
                 z.to_ixdtf_string_with_provider(DisplayOffset::from_str(t[3]).unwrap(), DisplayTimeZone::from_str(t[4]).unwrap(), show(t[9]), opts(t[5], t[6], t[7]), &p)
+            }))
+        }
+        "f_zdts" => {
+            let (tz, sp) = super::zone::zone_of(t[2]);
+            out(ZonedDateTime::try_new(i(t[1]), Calendar::default(), tz).and_then(|z| {
+                z.to_ixdtf_string_with_provider(DisplayOffset::from_str(t[3]).unwrap(), DisplayTimeZone::from_str(t[4]).unwrap(), show("auto"), opts(t[5], t[6], t[7]), &sp)
+            }))
+        }
+        "rt_zdts" => {
+            let (tz, sp) = super::zone::zone_of(t[2]);
+            law(ZonedDateTime::try_new(i(t[1]), Calendar::default(), tz).and_then(|z| {
+                let s = z.to_string_with_provider(&sp)?;
+                let back = ZonedDateTime::from_str_with_provider(&s, temporal_rs::options::Disambiguation::Reject, temporal_rs::options::OffsetDisambiguation::Reject, &sp)?;
+                Ok(back == z && back.to_string_with_provider(&sp)? == s)
             }))
         }
         "rt_zdt" => {
